@@ -1,4 +1,5 @@
 mod e1;
+mod guard;
 mod e2;
 mod e3;
 mod tables;
@@ -20,6 +21,8 @@ fn main() {
             let mut rng = Rng::new(seed);
             let r = std::panic::catch_unwind(std::panic::AssertUnwindSafe(|| match engine {
                 "octet" => e1::octet(&mut rec, &mut rng, thorough),
+                "kernels" => e1::kernels(&mut rec, &mut rng, thorough, outdir),
+                "slab" => e1::slab(&mut rec, &mut rng, thorough),
                 "cm" => e3::cm(&mut rec, &mut rng, thorough),
                 "enc" => e3::enc(&mut rec, &mut rng, thorough),
                 "repair" => e3::repair(&mut rec, &mut rng, thorough),
